@@ -38,8 +38,24 @@ theorem aget_aset {α} (l : List (Nat × α)) (k k' : Nat) (v : α) :
 
 /-! ### the comparator -/
 
+/-- The regenerated comparator, spelled out (breaks when the field order in the source changes). -/
+theorem less_def (a b : Item) :
+    less a b = (decide (a.whn < b.whn) || (decide (a.whn = b.whn) && decide (a.id < b.id))) := by
+  have h : less a b = (decide (a.whn < b.whn) || (decide (a.whn = b.whn) &&
+      (decide ((a.id : Int) < (b.id : Int)) || (decide ((a.id : Int) = (b.id : Int)) && false)))) := rfl
+  rw [h]
+  simp [Int.ofNat_lt]
+
+/-- The regenerated due test, spelled out. -/
+theorem isDue_def (now : Int) (it : Item) : isDue now it = decide (it.next + it.off ≤ now) := by
+  have h : isDue now it = decide (0 + it.next + it.off ≤ now) := rfl
+  rw [h]
+  simp
+
+
 theorem same_iff (a b : Item) : same a b = true ↔ a.whn = b.whn ∧ a.id = b.id := by
-  unfold same less
+  unfold same
+  rw [less_def, less_def]
   simp only [Bool.and_eq_true, Bool.not_eq_true', Bool.or_eq_false_iff, decide_eq_false_iff_not,
     Bool.and_eq_false_iff]
   constructor
@@ -60,10 +76,10 @@ theorem same_false_of_id_ne {a b : Item} (h : a.id ≠ b.id) : same a b = false 
   | true => exact absurd ((same_iff a b).mp hs).2 h
 
 theorem less_irrefl (a : Item) : less a a = false := by
-  unfold less; simp
+  rw [less_def]; simp
 
 theorem less_asymm {a b : Item} (h : less a b = true) : less b a = false := by
-  unfold less at *
+  rw [less_def] at *
   simp only [Bool.or_eq_true, decide_eq_true_eq, Bool.and_eq_true] at h
   simp only [Bool.or_eq_false_iff, decide_eq_false_iff_not, Bool.and_eq_false_iff]
   rcases h with h | ⟨h1, h2⟩
@@ -71,7 +87,7 @@ theorem less_asymm {a b : Item} (h : less a b = true) : less b a = false := by
   · exact ⟨by omega, Or.inr (by omega)⟩
 
 theorem less_trans {a b c : Item} (h1 : less a b = true) (h2 : less b c = true) : less a c = true := by
-  unfold less at *
+  rw [less_def] at *
   simp only [Bool.or_eq_true, decide_eq_true_eq, Bool.and_eq_true] at *
   rcases h1 with h1 | ⟨h1, h1'⟩ <;> rcases h2 with h2 | ⟨h2, h2'⟩
   · left; omega
